@@ -33,8 +33,8 @@ func specs() []hashSpec {
 	ff := bytes.Repeat([]byte{0xff}, 32)
 	return []hashSpec{
 		{"sha256", sha256.New, [][]byte{{}, {7}, bytes.Repeat([]byte{0xab}, 64), {1, 2, 3}}},
-		{"mimc_bn254", func() hash.Hash { return gchash.MIMC_BN254.New() }, [][]byte{{}, {7}, canon32(5), ff}},
-		{"poseidon2_bn254", func() hash.Hash { return gchash.POSEIDON2_BN254.New() }, [][]byte{{}, {7}, canon32(5), ff}},
+		{"mimc_bn254", func() hash.Hash { return gchash.MIMC_BN254.New() }, [][]byte{{}, {1, 2, 3}, canon32(5), ff}},
+		{"poseidon2_bn254", func() hash.Hash { return gchash.POSEIDON2_BN254.New() }, [][]byte{{}, {1, 2, 3}, canon32(5), ff}},
 	}
 }
 
@@ -303,7 +303,9 @@ func main() {
 	for _, spec := range specs() {
 		for k := 1; k <= 4; k++ {
 			spec, k := spec, k
-			names := []string{"c0", "c1", "c2", "c3"}[:k]
+			// names of different lengths, longer and shorter than the short binding: a hasher that pads short writes sees
+			// every order of (short write, shorter / longer next write) across the transcript's Reset calls
+			names := []string{"c0", "gamma", "b", "delta"}[:k]
 			if spec.name != "sha256" && k > 2 && r.Quick() {
 				continue
 			}
@@ -333,7 +335,7 @@ func explore(r *vlib.Run, spec hashSpec, names []string, maxDepth int, group str
 	}
 	seen := map[string]struct{}{}
 	e0 := newExec(spec, names)
-	seen[dump(e0.t, e0.held)] = struct{}{}
+	seen[dump(e0.t, e0.held)+"#"+vlib.DeepDump(e0.m.ch)+"#h="+vlib.DeepDumpValue(reflect.ValueOf(e0.t).Elem().FieldByName("h"))] = struct{}{}
 	frontier := [][]op{{}}
 	states, transitions := 1, 0
 	for depth := 0; depth < maxDepth && len(frontier) > 0; depth++ {
@@ -372,7 +374,9 @@ func explore(r *vlib.Run, spec hashSpec, names []string, maxDepth int, group str
 					continue // do not explore beyond a violating transition
 				}
 				// product state: real private state + caller-held slices + model state
-				key := dump(e.t, e.held) + "#" + vlib.DeepDump(e.m.ch)
+				// (the hasher the transcript drives is part of the state: a refused or completed ComputeChallenge
+				// that leaves something behind in it reaches a different state, whose futures are explored)
+				key := dump(e.t, e.held) + "#" + vlib.DeepDump(e.m.ch) + "#h=" + vlib.DeepDumpValue(reflect.ValueOf(e.t).Elem().FieldByName("h"))
 				if _, ok := seen[key]; !ok {
 					seen[key] = struct{}{}
 					states++
